@@ -6,6 +6,7 @@ import Proofs.Ledger
 import Proofs.Gates
 import Proofs.WF
 import Proofs.FrozenHistory
+import Proofs.UnifiedFrozen
 namespace C04
 open Esdt
 
@@ -196,7 +197,96 @@ example : (match SupplyOp.mint.run fzEnv fzMint { accts := fzA } with
 /-- `FrozenAt` is the `Frozen` of this file -/
 theorem frozenAt_iff (A : Accts) (a tok : Bytes) : FrozenAt A a tok ↔ Frozen A a tok := Iff.rfl
 
--- PARTIAL (stated): the history-level clause for the TRANSFER functions and for pause ("for all histories interleaving the
+/-! ### the mixed world (Proofs/UnifiedFrozen.lean): ESDTTransfer traffic and the 20 non-transfer functions -/
+
+/-- FULL for the fungible transfer function and all 20 non-transfer functions (histories; any number of shards; any
+    interleaving): while `a` is frozen for `tok` on shard `i` and holds `v`, no history of ESDTTransfer user transactions,
+    deliveries, refusals and refunds — of any token, between any accounts, `a` included as sender or receiver — mixed with
+    calls of the 20 other functions by anybody on any shard moves that balance or lifts the freeze; excluded are exactly
+    the steps the property names: a wipe / unfreeze of (a, tok), a refund addressed to `a` for `tok`, calls flagged
+    return-after-error (the protocol's own flag), and — as everywhere — token identifiers that alias (`LocalFzOK.noAlias`).
+    ESDTNFTTransfer / MultiESDTNFTTransfer steps are not part of this history theorem (per call: the theorems above). -/
+theorem frozen_balance_in_mixed_world (a tok : Bytes) (v : Int) (e : Env) (i : Nat) (hsc : a ≠ esdtSCAddress)
+    (hsys : a ≠ systemAccountAddress) (steps : List UStep) (w : UWorld) (hI : UInv e w) (hok : UStepsOK e steps w)
+    (hfz : UFzStepsOK e a tok steps w) (hF : FzW a tok v i w) : FzW a tok v i (urun e steps w).1 :=
+  unified_fz_history e i hsc hsys steps w hI hok hfz hF
+
+/-! non-vacuity: one shard; alice frozen with 5; bob mints 9, tries to send 4 to alice (refused: the world is unchanged),
+    sends 3 to carol, the system contract pauses and un-pauses another token: alice still holds 5, frozen -/
+def fzCarol : Bytes := List.replicate 32 3
+def fzW0 : UWorld := { shards := [fzA], ft := [], nft := [], multi := [] }
+def fzToAlice : Call := { fn := fnESDTTransfer, caller := fzBob, rcv := fzAlice, args := [fzTok, [4]], gas := 100 }
+def fzToCarol : Call := { fn := fnESDTTransfer, caller := fzBob, rcv := fzCarol, args := [fzTok, [3]], gas := 100 }
+def fzPause : Call := { fn := fnESDTPause, caller := esdtSCAddress, rcv := systemAccountAddress, args := [[88]], gas := 100 }
+def fzSteps : List UStep :=
+  [.call 0 .localMint fzMint, .ft (.user fzToAlice), .ft (.user fzToCarol), .call 0 .esdtPause fzPause]
+def fzFinal : UWorld := (urun fzEnv fzSteps fzW0).1
+
+example : (fzFinal.shards[0]?.map fun A => (A.read fzAlice (esdtKeyPrefix ++ fzTok) == encToken fzEntry,
+    balOf (A.read fzBob (esdtKeyPrefix ++ fzTok)), balOf (A.read fzCarol (esdtKeyPrefix ++ fzTok)))) =
+    some (true, 6, 3) := by decide +kernel
+
+example : FzW fzAlice fzTok 5 0 fzW0 :=
+  ⟨fzA, rfl, ⟨fzEntry, by decide +kernel, by decide⟩, by decide +kernel⟩
+
+theorem fzA_sinv : SInv fzA := by
+  have hread : ∀ a k, TokKey k → fzA.read a k =
+      if fzAlice = a ∧ esdtKeyPrefix ++ fzTok = k then encToken fzEntry else [] := by
+    intro a k hk
+    unfold fzA
+    rw [Accts.read_write]
+    split
+    · rfl
+    · have hne : ¬ (fzBob = a ∧ roleKeyPrefix ++ fzTok = k) := fun h => not_tokKey_role fzTok (h.2 ▸ hk)
+      rw [Accts.read_write, if_neg hne]; rfl
+  refine ⟨by unfold Accts.Nodup; decide, ?_, ?_, ?_⟩
+  · intro a k hk _
+    rw [hread a k hk]
+    split
+    · rename_i he
+      refine Or.inr ⟨fzEntry, by decide +kernel, ⟨5, rfl, Or.inl (by decide)⟩, fun m hm => by simp [fzEntry] at hm⟩
+    · exact Or.inl rfl
+  · intro a k
+    unfold fzA
+    rw [Accts.read_write]
+    split
+    · decide +kernel
+    · rw [Accts.read_write]
+      split
+      · decide +kernel
+      · show ([] : Bytes).length < two63; decide
+  · intro a k t m hk hne hdec hm
+    rw [hread a k hk] at hne hdec
+    split at hne
+    · rename_i he
+      rw [if_pos he] at hdec
+      have : decToken (encToken fzEntry) = some fzEntry := by decide +kernel
+      rw [this] at hdec; cases hdec
+      simp [fzEntry] at hm
+    · exact absurd rfl hne
+
+example : UInv fzEnv fzW0 := by
+  refine ⟨?_, fun _ h => (by cases h), fun _ h => (by cases h), fun _ h => (by cases h)⟩
+  intro A hA
+  simp only [fzW0, List.mem_cons, List.mem_nil_iff, or_false] at hA
+  subst hA
+  exact fzA_sinv
+
+example : UStepsOK fzEnv fzSteps fzW0 := by
+  refine ⟨fun A _ => ⟨rfl, ?_, fun _ => (by decide), fun _ => ⟨by decide, by decide⟩, fun h => (by cases h)⟩,
+    ⟨by decide, by decide⟩, ⟨by decide, by decide⟩,
+    fun A _ => ⟨rfl, ?_, fun h => (by revert h; decide), fun h => (by cases h), fun h => (by cases h)⟩, trivial⟩
+  all_goals
+    intro a ha
+    simp only [fzMint, fzPause, List.mem_cons, List.mem_nil_iff, or_false] at ha
+    rcases ha with rfl | rfl <;> decide
+
+example : UFzStepsOK fzEnv fzAlice fzTok fzSteps fzW0 :=
+  ⟨⟨rfl, fun h => (by rcases h with h | h <;> cases h), fun h => (by rcases h with h | h | h <;> cases h)⟩,
+   rfl, rfl,
+   ⟨rfl, fun h => (by rcases h with h | h <;> cases h), fun h => (by rcases h with h | h | h <;> cases h)⟩, trivial⟩
+
+-- PARTIAL (stated): the history-level clause for the NFT / multi TRANSFER functions and for pause ("for all histories interleaving the
 -- toggles with every balance-changing function") is the composition of the per-call theorems above; the whole
 -- multi-transfer loops and the destination side of a multi transfer are covered item-wise (`paused_blocks_multi_item`,
 -- `spec_addNFTToDestination`, `spec_addToESDTBalance` carry the gate). The C04 oracle (no entry of a frozen account / paused
